@@ -228,7 +228,7 @@ let run_Q caseno tk =
   let r_acc tk = let k = next_int tk in let b = ni tk in let c = next_int tk in let id = ni tk in
     let e = { el_base = b; el_const = (c <> 0) } in if k = 0 then ADefault e else AUser (e, id) in
   let r_mds tk = let m = r_map tk in let a = r_acc tk in { md_map = m; md_acc = a } in
-  let r_arg tk = match next_int tk with 0 -> AInt (ity_of_nat (ni tk)) | 1 -> AFloat | 2 -> AClassNt | 3 -> AClassThrow | _ -> ANone in
+  let r_arg tk = match next_int tk with 0 -> AInt (ity_of_nat (ni tk)) | 1 -> AFloat | 2 -> AClassNt | 3 -> AClassThrow | 5 -> AClassExplicit | _ -> ANone in
   let r_args tk = let n = next_int tk in take_n tk n r_arg in
   let r_desc tk = match next_int tk with 0 -> QE (r_ext tk) | 1 -> QM (r_map tk) | 2 -> QA (r_acc tk) | _ -> QD (r_mds tk) in
   let q = match next_int tk with
